@@ -4,6 +4,8 @@ import (
 	"fmt"
 	"runtime"
 	"runtime/debug"
+	"strconv"
+	"strings"
 	"time"
 )
 
@@ -37,6 +39,7 @@ type Stats struct {
 	PoisonRuns    int                `json:"poison_runs"`
 	WarmRuns      int                `json:"warm_runs"`
 	DrainSteps    int                `json:"drain_steps"`
+	ChurnCycles   int                `json:"churn_cycles,omitempty"`
 	Evaluations   int                `json:"evaluations"`
 	Nontrivial    int                `json:"distinct_nontrivial"`
 	FaultySkipped int                `json:"faulty_transitions_skipped"`
@@ -96,6 +99,7 @@ type Config struct {
 	MaxSamples  int
 	OnState     func(path []Op) // called for every new state (after the monitor)
 	GC          bool            // C18: a forced collection after every operation of every replay and before every check
+	Churn       int             // from every new state: this many Delete(k);Insert(k) cycles on its first and last stored free key, then a monitored step
 	Drain       bool            // from every new state: delete every stored key, one by one (two orders), monitored step by step
 }
 
@@ -201,6 +205,69 @@ func DrainEval(u *Universe, m Monitor, path []Op, descending bool, st *Stats) *V
 		}
 		if w, ok := m.(Warmer); ok {
 			if v := w.Light(x, x); v != nil {
+				v.What += tail
+				return v
+			}
+		}
+	}
+	return nil
+}
+
+// ChurnEval replays path and then, for the first and the last stored free key, deletes and re-inserts that key
+// `cycles` times (slot reuse inside a node that keeps its size class: more cycles than a node has slots), checking every
+// result; the last re-insertion is a monitored transition, followed by the monitor's state check. Deterministic in
+// (path, cycles): doubles as the replay primitive of what it finds.
+func ChurnEval(u *Universe, m Monitor, path []Op, cycles int, st *Stats) *Violation {
+	if st == nil {
+		st = &Stats{}
+	}
+	d, ref, err := rebuild(u, path)
+	if err != nil {
+		return nil
+	}
+	var present []int
+	for _, k := range u.Free {
+		if _, ok := ref.Get(k); ok {
+			present = append(present, k)
+		}
+	}
+	if len(present) > 2 {
+		present = []int{present[0], present[len(present)-1]}
+	}
+	for _, k := range present {
+		val, _ := ref.Get(k)
+		del, ins := Op{Kind: OpDelete, K: k}, Op{Kind: OpInsert, K: k, V: val}
+		for c := 0; c < cycles; c++ {
+			tail := fmt.Sprintf(" [cycle %d of %d of Delete;Insert of %s after the history]", c+1, cycles, u.KeyStr[k])
+			st.ChurnCycles++
+			got, pan := apply(d, del)
+			if pan != "" {
+				return viol("Delete("+u.KeyStr[k]+") with content "+ref.String()+tail, "returns true", "panic: "+pan)
+			}
+			if !got {
+				return viol("Delete("+u.KeyStr[k]+") with content "+ref.String()+tail, "true", "false")
+			}
+			if c < cycles-1 {
+				if _, pan := apply(d, ins); pan != "" {
+					return viol("Insert("+u.KeyStr[k]+") into the content without it"+tail, "returns normally", "panic: "+pan)
+				}
+				continue
+			}
+			// last cycle: the re-insertion is a monitored transition
+			pre := ref.Clone()
+			pre.Apply(del)
+			full := append(append([]Op(nil), path...), del, ins)
+			x := &Exec{U: u, D: d, Pre: pre, Op: ins, Stats: st, SizeBefore: d.Size(), Path: full}
+			x.DelResult, x.Panic = apply(d, ins)
+			x.Ref = ref
+			if v := m.Transition(x); v != nil {
+				v.What += tail
+				return v
+			}
+			if transitionFaulty(x) {
+				return nil
+			}
+			if v := m.State(x); v != nil {
 				v.What += tail
 				return v
 			}
@@ -393,6 +460,10 @@ func EvalPathX(u *Universe, m Monitor, path []Op, fill string, st *Stats) (*Eval
 	}
 	if fill == "drain-asc" || fill == "drain-desc" {
 		return &EvalResult{V: DrainEval(u, m, path, fill == "drain-desc", st)}, nil
+	}
+	if strings.HasPrefix(fill, "churn-") {
+		n, _ := strconv.Atoi(strings.TrimPrefix(fill, "churn-"))
+		return &EvalResult{V: ChurnEval(u, m, path, n, st)}, nil
 	}
 	d, pre, err := rebuild(u, path[:len(path)-1])
 	if err != nil {
@@ -766,6 +837,13 @@ func Explore(u *Universe, m Monitor, cfg Config) *Result {
 								return e.res
 							}
 							break
+						}
+					}
+				}
+				if isNew && cfg.Churn > 0 {
+					if cv := ChurnEval(u, m, full, cfg.Churn, st); cv != nil {
+						if e.report(cv, full, fmt.Sprintf("churn-%d", cfg.Churn)) {
+							return e.res
 						}
 					}
 				}
